@@ -114,7 +114,8 @@ UnitsOf(i) ==
          IF q.kind = "update"
          THEN IF Len(ps) > 1 THEN << [i |-> i, j |-> 0, kind |-> "multierr", fld |-> 0] >>
               ELSE IF q.join = "strict" /\ Len(ps) # 1 THEN << [i |-> i, j |-> 0, kind |-> "stricterr", fld |-> 0] >>
-              ELSE IF ps = <<>> THEN << [i |-> i, j |-> 0, kind |-> "nopartner", fld |-> 0] >>
+              ELSE IF ps = <<>> THEN (IF q.join = "left" THEN << [i |-> i, j |-> 0, kind |-> "pair", fld |-> 0] >>      \* the null partner: every b-field None
+                                      ELSE << [i |-> i, j |-> 0, kind |-> "nopartner", fld |-> 0] >>)
               ELSE << [i |-> i, j |-> ps[1], kind |-> "pair", fld |-> 0] >>
          ELSE CASE q.join = "inner"  -> [k \in 1..Len(ps) |-> [i |-> i, j |-> ps[k], kind |-> "pair", fld |-> 0]]
                 [] q.join = "left"   -> IF ps = <<>> THEN << [i |-> i, j |-> 0, kind |-> "pair", fld |-> 0] >>
